@@ -2338,6 +2338,58 @@ func isDirTest(cond ssa.Value) bool {
 	return strings.HasSuffix(n, ").IsDir")
 }
 
+// ---- HS8: every hasher hashes -------------------------------------------------------------------------------------------------------
+
+func ruleHS8(c *Ctx) *rule {
+	r := &rule{ID: "HS8", Engine: "E3", Floor: 1,
+		Statement: "every implementation of Hasher.Hash other than the concurrent one returns, with a nil error, either a constant (a stand-in that never equals a digest) or the result of calling another hasher in the same invocation; none returns a value it kept from an earlier call (a map or field)",
+		Necessity: "a digest describes the files as they are when it is computed: one that is remembered across calls (memoised per file list) describes them as they were, so a task that runs after an earlier task rewrote its inputs is recorded with, and later compared against, a stale digest"}
+	iface := c.hasherIface()
+	t := c.hashTopology()
+	n := 0
+	for _, f := range c.ModFuncs {
+		if f.Name() != "Hash" || f.Signature.Recv() == nil || f.Synthetic != "" || len(f.Blocks) == 0 || (t != nil && f == t.fn) {
+			continue
+		}
+		if !types.Implements(f.Signature.Recv().Type(), iface) && !types.Implements(types.NewPointer(f.Signature.Recv().Type()), iface) {
+			continue
+		}
+		n++
+		key := fname(f) + " computes or delegates"
+		bad := ""
+		for _, ret := range returnsOf(f) {
+			if len(ret.Results) != 2 {
+				continue
+			}
+			if ev := ret.Results[1]; !isNilConst(ev) && !mayBeNil(ev, map[ssa.Value]bool{}) {
+				if _, isExtract := ev.(*ssa.Extract); !isExtract {
+					continue
+				}
+			}
+			for _, o := range origins(ret.Results[0]) {
+				switch x := o.(type) {
+				case *ssa.Const:
+				case *ssa.Extract:
+					if call, ok := x.Tuple.(*ssa.Call); !ok || !c.isHashCall(call) {
+						bad = condText(o)
+					}
+				default:
+					bad = condText(o)
+				}
+			}
+		}
+		if bad != "" {
+			r.bad(key, c.pos(f.Pos()), "a digest that was not computed by this call is returned ("+bad+")")
+		} else {
+			r.ok(key, c.pos(f.Pos()), "returns a constant or the result of the hasher it wraps")
+		}
+	}
+	if n == 0 {
+		r.ok("other Hasher implementations", "-", "the concurrent hasher is the only implementation")
+	}
+	return r
+}
+
 // ---- HS7: the hasher does not touch the list it is given ---------------------------------------------------------------------------
 
 func ruleHS7(c *Ctx) *rule {
@@ -2443,18 +2495,55 @@ func ruleHS6(c *Ctx) *rule {
 		}
 		n++
 		key := fmt.Sprintf("%s digest return#%d", fname(t.fn), n)
-		bad := ""
-		for _, o := range origins(ret.Results[0]) {
-			if k, isC := o.(*ssa.Const); isC {
-				if isNilConst(ev) || mayBeNil(ev, map[ssa.Value]bool{}) {
+		_ = key
+		// digest and error are paired edge by edge where both are merged in the same block (a helper returning
+		// (digest, error) that was inlined): a constant digest is fine on the edges whose error is not nil
+		bad, unsure := "", ""
+		// errors the guards of this return say are not nil (`if firstErr != nil { return "", firstErr }`)
+		nonNil := map[ssa.Value]bool{}
+		for _, g := range c.info(t.fn).necessaryGuards(ret.Block()) {
+			if x, nonNilWhenTrue, isTest := errNilTest(g.cond); isTest && nonNilWhenTrue == g.pol {
+				nonNil[x] = true
+			}
+		}
+		var pair func(val, err ssa.Value, depth int)
+		pair = func(val, err ssa.Value, depth int) {
+			if depth > 6 || bad != "" {
+				return
+			}
+			vp, vIsPhi := val.(*ssa.Phi)
+			ep, eIsPhi := err.(*ssa.Phi)
+			switch {
+			case vIsPhi && eIsPhi && vp.Block() == ep.Block():
+				for i := range vp.Edges {
+					pair(vp.Edges[i], ep.Edges[i], depth+1)
+				}
+			case vIsPhi:
+				for i := range vp.Edges {
+					pair(vp.Edges[i], err, depth+1)
+				}
+			default:
+				k, isC := val.(*ssa.Const)
+				if !isC {
+					return
+				}
+				switch {
+				case nonNil[err]:
+				case isNilConst(err):
 					bad = condText(k)
+				case eIsPhi && mayBeNil(err, map[ssa.Value]bool{}):
+					unsure = condText(k) // merged elsewhere: which error goes with the constant is not visible edge by edge
 				}
 			}
 		}
-		if bad != "" {
+		pair(ret.Results[0], ev, 0)
+		switch {
+		case bad != "":
 			r.bad(key, c.ipos(ret), "the constant "+bad+" can be returned as a digest with a nil error")
-		} else {
-			r.ok(key, c.ipos(ret), "the digest is computed, not a constant")
+		case unsure != "":
+			r.undecided(key, c.ipos(ret), "the constant "+unsure+" and a possibly nil error are merged in different places: whether they can be returned together is not decided")
+		default:
+			r.ok(key, c.ipos(ret), "the digest is computed, not a constant (constants only go with a non-nil error)")
 		}
 	}
 	if n == 0 {
@@ -2504,7 +2593,7 @@ func hashProperties() []*propertySpec {
 			Explanation: "Static analysis of the goroutine topology of the Hash implementation (channels, senders, receivers recovered by alias propagation through closures and parameters): HS1 proves that the only arrival-ordered slice that flows into the returned digest is sorted (dominance of the sort call over every consumer) with a comparator that orders whole elements; HS2 proves by origin tracing that every item is sha256 of the entire file opened on the job path plus that unmodified path, and that both reach the accumulated element; HS3 proves by path enumeration that each job yields exactly one item unless it is a directory; HS4 proves by interval evaluation that at least one worker exists for a non-empty list.",
 			NotCovered:  []string{"injectivity of the hash||path framing and collision resistance of SHA-256", "that min(NumCPU, len) is the best bound", "duplicate paths in the list (value-level)"},
 			Assumptions: trusted,
-			Rules:       []func(*Ctx) *rule{ruleHS1, ruleHS2, ruleHS3, ruleHS4("HS4"), ruleHS5}},
+			Rules:       []func(*Ctx) *rule{ruleHS1, ruleHS2, ruleHS3, ruleHS4("HS4"), ruleHS5, ruleHS8}},
 		{ID: "C18", Title: "Hashing any path list returns cleanly: no crash, deadlock, race or leak",
 			Explanation: "Schedules and fault sequences are covered by shape conditions on the fixed producer/jobs/workers/results/collector topology recovered from the SSA form: CC1 (no dereference of a value whose paired error is non-nil or discarded), CC2 (every worker error is sent on all paths), CC3 (nil-error return guarded by the received errors), CC4 (Done deferred at entry, Add(1) before each go in the same iteration), CC5 (single close of jobs by the sole producer after the last send on every path; close of results after Wait), CC6 (receive loops leave only on channel-closed), CC7 (no shared writable memory), CC8 (>= 1 worker). CC4-CC8 together with HS3 are sufficient for deadlock-, leak- and race-freedom of this topology under any schedule: every worker terminates iff jobs is closed and drained; jobs is closed after finitely many sends, each of which is matched because >= 1 worker loops until closed; each worker's sends are matched because the collector drains until closed; results is closed exactly when all workers are done. A different topology makes the check undecided, not green.",
 			NotCovered:  []string{"panics inside the standard library", "liveness if the file system blocks a read forever"},
